@@ -98,6 +98,48 @@ func Number(v float64, style int) string {
 		if !strings.ContainsAny(f, ".eE") {
 			return f + "."
 		}
+	case 7, 8, 9:
+		// scientific notation that is not normalised (15e2, 0.015e5, 0e5, -0.0E-7): the
+		// same decimal number with the point moved and the exponent adjusted
+		if v != v || v > 1.7e308 || v < -1.7e308 {
+			return f
+		}
+		s := strconv.FormatFloat(v, 'e', -1, 64) // d[.ddd]e±xx
+		mant, exps, _ := strings.Cut(s, "e")
+		x, _ := strconv.Atoi(exps)
+		neg := strings.HasPrefix(mant, "-")
+		mant = strings.TrimPrefix(mant, "-")
+		ip, fp, _ := strings.Cut(mant, ".")
+		switch style {
+		case 7: // all digits before the point
+			x -= len(fp)
+			ip, fp = ip+fp, ""
+		case 8: // a zero before the point
+			x += len(ip)
+			ip, fp = "0", ip+fp
+		default: // exponent moved by a few places, padded with zeros
+			x -= 3
+			fp += "000"
+			ip, fp = ip+fp[:3], fp[3:]
+		}
+		if v == 0 {
+			x = []int{5, -7, 10}[style-7] // any exponent: the number is zero
+		}
+		out := ip
+		if fp != "" {
+			out += "." + fp
+		}
+		if neg {
+			out = "-" + out
+		}
+		e := "e"
+		if style == 8 {
+			e = "E"
+		}
+		if x >= 0 && style == 9 {
+			return out + e + "+" + strconv.Itoa(x)
+		}
+		return out + e + strconv.Itoa(x)
 	}
 	return f
 }
@@ -107,7 +149,7 @@ func (w *writer) coord(c []model.F) {
 		if i > 0 {
 			w.ws(1)
 		}
-		w.sb.WriteString(Number(v.V(), w.c.pick(7, "numstyle")))
+		w.sb.WriteString(Number(v.V(), w.c.pick(10, "numstyle")))
 	}
 }
 
